@@ -689,6 +689,140 @@ def check_tables(tier, rng, okx):
                 out["corr"].setdefault(("prelu", "model"), dict(key, code_index=i, model=mo[3 * i:3 * i + 3], impl=table[i]))
     out["dist"]["prelu_tables"] = n_pr
 
+    # ---- Maximum(x, Mul(x, c)) -> LeakyRelu table (convert_mul_max_to_abs_or_lrelu), both operand orders -------
+    from ethosu.vela.operation import Operation
+    from ethosu.vela.tensor import QuantizationParameters, Tensor, create_const_tensor
+
+    def mulmax_graph(dtn, s_x, zp_x, code, s_c, zp_c, swap_mul, swap_max):
+        dt = dt_of(dtn)
+
+        def q(sc, zp):
+            qp = QuantizationParameters()
+            qp.scale_f32 = np.float32(sc)
+            qp.zero_point = np.int64(zp)
+            return qp
+        shape = [1, 2, 2, 8]
+        x = Tensor(shape, dt, "x")
+        x.quantization = q(s_x, zp_x)
+        src = Operation(Op.Placeholder, "x_src")
+        src.set_output_tensor(x)
+        c = create_const_tensor("alpha", [], dt, np.array(code, dt.as_numpy_type()), quantization=q(s_c, zp_c))
+        m = Tensor(shape, dt, "mul_out")
+        m.quantization = q(s_x, zp_x)
+        mul = Operation(Op.Mul, "mul")
+        for t in ((c, x) if swap_mul else (x, c)):
+            mul.add_input_tensor(t)
+        mul.set_output_tensor(m)
+        mul.set_ifm_ofm_shapes()
+        y = Tensor(shape, dt, "Maximum_out")
+        y.quantization = q(s_x, zp_x)
+        mx = Operation(Op.Maximum, "Maximum")
+        for t in ((m, x) if swap_max else (x, m)):
+            mx.add_input_tensor(t)
+        mx.set_output_tensor(y)
+        mx.set_ifm_ofm_shapes()
+        mx.run_on_npu = True
+        return mx
+
+    # (dtype, s_x, zp_x, alpha code, alpha scale, alpha zero point)
+    mm0 = [("int8", 0.1, 12, 38, 0.3 / 38, 0), ("int8", 0.7, 127, 51, 0.01, 0), ("uint8", 0.05, 128, 200, 0.001, 100),
+           ("int8", 0.0625, 0, -96, 2.0 ** -7, -128), ("uint8", 0.03, 3, 64, 2.0 ** -7, 0), ("int8", 0.02, -128, 127, 2.0 ** -8, -128),
+           ("int8", 0.1, 0, -128, 2.0 ** -7, 0),       # value -1: Abs
+           ("uint8", 0.1, 128, 192, 2.0 ** -7, 0),     # value 1.5: must not be rewritten
+           ("int8", 0.1, 0, -30, 0.01, 0),             # value -0.3: must not be rewritten
+           ("int8", 0.1, 5, 0, 0.01, -100), ("uint8", 0.2, 7, 128, 2.0 ** -7, 0)]   # value exactly 1
+    mm = [t + (sm, sx) for t in mm0 for sm in (False, True) for sx in (False, True)]
+    for _ in range(6 * n):
+        dtn = rng.choice(["int8", "int8", "uint8"])
+        lo_, hi_ = (-128, 127) if dtn == "int8" else (0, 255)
+        mm.append((dtn, rand_scale(rng), zp_for(dtn), rng.randrange(lo_, hi_ + 1), rand_scale(rng, -12, -6),
+                   rng.choice([lo_, 0 if dtn == "uint8" else -128, rng.randrange(lo_, hi_ + 1)]), rng.random() < 0.5, rng.random() < 0.5))
+    mcases, minfo, kcases, kinfo = [], [], [], []
+    n_mm = n_kind = 0
+    for dtn, sx_, zx, code, sc_, zc, swap_mul, swap_max in mm:
+        dsx, dsc = float(f32(sx_)), float(f32(sc_))
+        qmin, qmax = (-128, 127) if dtn == "int8" else (0, 255)
+        val = Fraction(dsc) * (code - zc)
+        want_kind = "LeakyRelu" if 0 <= val <= 1 else "Abs" if val == -1 else "Maximum"
+        key = {"table": "mulmax", "dtype": dtn, "ifm_scale": dsx, "zp": zx, "alpha_code": code, "alpha_scale": dsc, "alpha_zp": zc,
+               "const_first_in_mul": bool(swap_mul), "mul_first_in_max": bool(swap_max)}
+        mx = mulmax_graph(dtn, sx_, zx, code, sc_, zc, swap_mul, swap_max)
+        r = run_rewrite(tgo.convert_mul_max_to_abs_or_lrelu, mx, arch, None)
+        n_kind += 1
+        out["evals"] += 1
+        if r[0] != "ok":
+            out["viol"].setdefault(("mulmax", "crash"), (dict(table="mulmax", failure=r[1]), dict(key, observed=list(r[1:])),
+                                                        "convert_mul_max_to_abs_or_lrelu raised %r" % (r[1:],)))
+            continue
+        got_kind = mx.type.name
+        if got_kind != want_kind:
+            out["viol"].setdefault(("mulmax", "decision", want_kind), (
+                dict(table="mulmax", failure="decision", expected=want_kind),
+                dict(key, alpha_real=float(val), observed=got_kind, required=want_kind),
+                "Maximum(x, Mul(x, c)) with c = %r*(%d - %d) = %.6g was rewritten to %s; by the value of c it must be %s" % (
+                    dsc, code, zc, float(val), got_kind, want_kind)))
+            continue
+        fr = Fraction(dsc)
+        kcases.append([code, zc, fr.numerator, -(fr.denominator.bit_length() - 1)])
+        kinfo.append((key, {"Maximum": 0, "LeakyRelu": 1, "Abs": 2}[want_kind]))
+        if want_kind != "LeakyRelu" or val == 0:
+            continue
+        asc_attr = mx.attrs.get("alpha_scaling")
+        r = run_rewrite(tgo.convert_lrelu, mx, arch, None)
+        out["tables"] += 1
+        n_mm += 1
+        if r[0] != "ok" or getattr(r[1], "activation_lut", None) is None:
+            out["viol"].setdefault(("mulmax", "crash"), (dict(table="mulmax", failure=r[1] if r[0] == "exc" else "no LUT"),
+                                                        dict(key, observed=list(r[1:]) if r[0] == "exc" else "no LUT"),
+                                                        "the rewritten Mul+Maximum did not get a table: %r" % (r[1:],)))
+            continue
+        table = [int(v) for v in r[1].activation_lut.values]
+        m2, s2 = ref_quantize_multiplier(dsx * dsc / dsx)     # TFLite MUL: double(s1) * double(s2) / double(s_out)
+        ref = []
+        for x in range(qmin, qmax + 1):
+            mulv = max(qmin, min(qmax, zx + ref_mbqm(wrap(32, (x - zx) * (code - zc)), m2, s2)))
+            ref.append(max(x, mulv))                          # MAXIMUM of equally quantised operands
+        bad = [i for i, v in enumerate(table) if v != ref[i]]
+        really_bad = []
+        for i in bad:
+            x = qmin + i
+            real = (x - zx) * (val if x < zx else 1) + zx      # output quantisation == input quantisation
+            real = min(Fraction(qmax), max(Fraction(qmin), real))
+            if abs(table[i] - real) > Fraction(1, 2) + Fraction(1, 1024):
+                really_bad.append(i)
+        out["evals"] += len(table)
+        out["nontrivial"].add(("mulmax", dtn, dsx, zx, code, dsc, zc, swap_mul, swap_max))
+        if really_bad:
+            i = really_bad[0]
+            out["viol"].setdefault(("mulmax", "value", bool(swap_mul)), (
+                dict(table="mulmax", failure="value", const_first_in_mul=bool(swap_mul)),
+                dict(key, code=qmin + i, observed=table[i], reference=ref[i], alpha_real=float(val), n_bad=len(really_bad),
+                     alpha_scaling_attr=[int(np.asarray(v).flatten()[0]) for v in asc_attr] if asc_attr else None,
+                     reference_multiplier=[m2, 31 - s2]),
+                "Maximum(x, Mul(%s)) table (alpha %.6g = %r*(%d - %d), x scale %r): entry for code %d is %d, the MUL+MAXIMUM reference "
+                "kernels give %d (%d of 256 entries wrong)" % ("c, x" if swap_mul else "x, c", float(val), dsc, code, zc, dsx, qmin + i,
+                                                               table[i], ref[i], len(really_bad))))
+        ids, idsh = scaling.elementwise_mul_scale(np.double(f32(sx_)), 1, np.double(f32(sx_)))
+        a11, s11 = scaling.elementwise_mul_scale(np.double(f32(sx_)), np.double(f32(sx_)), np.double(f32(sx_)))
+        a12, s12 = scaling.elementwise_mul_scale(np.double(f32(sx_)), np.double(f32(sc_)), np.double(f32(sx_)))
+        if 16 <= s12 <= 62 and 9 <= idsh <= 62:
+            mcases.append([1 if swap_mul else 0, zx, zx, zc, code, int(ids), int(idsh), int(a11), int(s11), int(a12), int(s12), qmin, qmax])
+            minfo.append((key, table))
+        if n_mm <= 1:
+            out["samples"].append(dict(key, first_entries=table[:6], last_entries=table[-4:]))
+    if okx and mcases:
+        for (key, table), mo in zip(minfo, prun("mulmax_table", mcases, chunks=min(8, len(mcases)))):
+            st, gv = mo[0::3], mo[1::3]
+            if any(s_ != 1 for s_ in st) or gv != table:
+                i = next((j for j in range(len(table)) if j >= len(gv) or st[j] != 1 or gv[j] != table[j]), 0)
+                out["corr"].setdefault(("mulmax", "model"), dict(key, code_index=i, model=mo[3 * i:3 * i + 3], impl=table[i]))
+    if okx and kcases:
+        for (key, k), mo in zip(kinfo, prun("mulmax_kind", kcases, chunks=1)):
+            if mo[1] != k:
+                out["corr"].setdefault(("mulmax", "decision-model"), dict(key, model=mo, impl_kind=k))
+    out["dist"]["mulmax_tables"] = n_mm
+    out["dist"]["mulmax_decisions"] = n_kind
+
     # ---- hard swish -------------------------------------------------------------------------
     hs = [("int8", 0.005, -128, 0.04, -128), ("int8", 0.011, 0, 0.011, 0), ("uint8", 0.003, 128, 0.003, 128), ("int8", 0.0117, -3, 0.02, 5),
           ("int8", 0.04, -128, 0.04, -128), ("int8", 0.0234, 10, 0.03, -10), ("uint8", 0.1, 0, 0.05, 0), ("int8", 0.0118, -128, 0.02, -128)]
